@@ -326,8 +326,57 @@ class Built(SubCheck):
         return out
 
 
+def refused_check(svg):
+    """trees whose shapes carry unit / percentage lengths: a geometric question asked BEFORE render() is refused; the caller
+    renders and goes on.  What is then written and read back - and what the tree itself says - equals what a tree gives
+    that was never asked the early question"""
+    from props import failsafe
+
+    def tree():
+        doc = svg.SVG(width=400, height=200)
+        g = svg.Group(id="g")
+        doc.append(g)
+        g.append(svg.Ellipse(cx=40, cy=30, rx="10%", ry="5%", id="e", fill="none", stroke="red", stroke_width=2,
+                             transform="translate(5,5) scale(3)"))
+        g.append(svg.Ellipse(cx="5%", cy="10%", rx=10, ry=5, id="c", fill="blue", stroke="black", stroke_width=1,
+                             transform="scale(2,-2)"))
+        g.append(svg.Circle(cx="1in", cy=30, r="2mm", id="k", fill="none", stroke="#123", stroke_width=1.5, transform="scale(2)"))
+        g.append(svg.Rect(1, 2, "10%", "10%", id="r", fill="none", stroke="green", stroke_width=3, transform="scale(2)"))
+        g.append(svg.SimpleLine(0, 0, "50%", "1cm", id="l", stroke="blue", stroke_width=2, transform="rotate(10) scale(1.5)"))
+        return doc
+
+    def shapes(doc):
+        return [e for e in doc.elements() if isinstance(e, svg.Shape)]
+
+    def ask(q):
+        def attempt(doc):
+            raised = 0
+            for sh in shapes(doc):
+                try:
+                    q(sh)
+                except Exception:  # noqa
+                    raised += 1
+            if not raised:
+                raise failsafe.NotRefused()
+            raise ValueError("refused for %d shapes" % raised)
+        return attempt
+
+    def written(doc):
+        for sh in shapes(doc):
+            sh.render(ppi=96, width=400, height=200)
+        own = observe_shapes(svg, doc)
+        back = observe_shapes(svg, svg.SVG.parse(io.StringIO(doc.string_xml())))
+        return [own, back]
+
+    qs = {"bbox()": lambda sh: sh.bbox(), "Path(shape)": lambda sh: svg.Path(sh), "d()": lambda sh: sh.d(),
+          "==": lambda sh: sh == svg.Rect(0, 0, 1, 1), "length()": lambda sh: sh.length()}
+    sc = [dict(name="unrendered tree, %s first" % n, fresh=tree, attempt=ask(q), follow={"render, write, parse": written})
+          for n, q in qs.items()]
+    return failsafe.Refused(svg, sc)
+
+
 def build(tier, seed, svg):
-    return [Parsed(svg, tier), Built(svg, tier)]
+    return [Parsed(svg, tier), Built(svg, tier), refused_check(svg)]
 
 
 MATCHERS = {}
